@@ -14,7 +14,7 @@ CLAIMS = {
         text="Sound-under-assumptions bound proof: every element store into the array('I')/array('i') counter fields and "
              "every element-total left by a mutator in countingbloom.py/countminsketch.py is shown to stay inside the "
              "typecode / footer-slot range on every syntactic path, for all amounts num_els >= 1; a pinned counting-Bloom "
-             "cell is never decremented. Decides the 'no OverflowError, no half-updated call, value pinned' clauses for "
+             "cell is never decremented; the constants a cell or the total can be pinned at are exactly the limits of that storage. Decides the 'no OverflowError, no half-updated call, value pinned' clauses for "
              "all inputs at once; does not decide the lower bound 0 of counting-Bloom cells under over-removal.",
         design_ref="DESIGN.md section 4 C16, section 3 E5"),
     "C19": dict(
@@ -121,7 +121,7 @@ CLAIMS = {
         technique="normal-form comparison of emission lists, address functions, query formulas and hash kernels against the documented layout",
         text="Layout description only: footer formats, field order and sizes with cells first; Bloom bit addressing and array length; "
              "one uint32 cell per counting position; count-min cell formula and int32 cells; mean and mean-min query formulas incl. "
-             "the median rule; the expanding filter's per-sub-filter record (uint64 count immediately followed by its bit array); "
+             "the median rule and the query-type setter (each name selects its estimator, anything else the minimum); the expanding filter's per-sub-filter record (uint64 count immediately followed by its bit array); "
              "cuckoo buckets of bucket_size uint32 slots padded with 0; seeded FNV-1a 64/32 kernels and constants; "
              "the default hash strategy of each structure. The numbers are the specification quoted in the property. NOT decided: "
              "that a C compiler lays out the reference reader identically, or agreement of answers as such (the consequence).",
@@ -142,7 +142,7 @@ CLAIMS = {
         text="Ordering/provenance part only: on every path add_alt performs bit stores, counter, flush mapping, seek, 8-byte write, flush "
              "file in that order; close syncs before releasing; the rewritten bytes are exactly slot 1 of the footer (computed from the "
              "struct literals); after creation only OR-stores and that slot write touch the file; every public mutator of persisted state "
-             "reaches the sync; every path handed to open/copyfile/_load is the resolved path without lossy projection; no rename / "
+             "reaches the sync; a created file is ceil(bits/8) zero bytes followed by the footer (where creation is a tofile/seek/write sequence); every path handed to open/copyfile/_load is the resolved path without lossy projection; no rename / "
              "replace / unlink is reachable without a guard comparing the backing path with the resolved destination; every open-for-writing "
              "the constructor reaches discards what the path held before (mode w/x, O_TRUNC/O_EXCL, truncate to 0); reopening "
              "restores the count. NOT decided: crash atomicity of the 8-byte write, page-cache / msync behaviour (OS semantics).",
@@ -164,7 +164,7 @@ CLAIMS = {
              "num_els and min(num_els, minimum); remove's no-op exits are guarded exactly by minimum == 0 / == limit before any store. "
              "Counting cuckoo: every bin built for a held entry carries that entry's count (new key: the caller's count, also on the "
              "eviction path; kicked bin: its own), expansion re-inserts each bin with its own count, a present key's add increments "
-             "its bin, check reports the count of the one holding bin (each candidate bucket visited once), remove decrements / drops at zero / "
+             "its bin, a bin matches a value exactly when the value is its fingerprint, check reports the count of the one holding bin (each candidate bucket visited once), remove decrements / drops at zero / "
              "is a no-op returning False when absent. Counts under collisions are not decided.",
         design_ref="DESIGN.md section 4 C08"),
     "C14": dict(
